@@ -497,3 +497,134 @@ Definition il_step (s : ist) (t : nat) : ist :=
 
 Definition il_run (sched : list nat) (s : ist) : ist := fold_left il_step sched s.
 Definition il_exec (cfg : icfg) (sched : list nat) : ist := il_run sched (il_init cfg).
+
+(* ---------- load-balancing group: the accept worker, the hand-off channel and the members' Accept ---------- *)
+(* TCPGroup.worker:           for { c := tcpLn.Accept(); PanicToError(acceptCh <- c); on error: c.Close(); return }
+   TCPGroupListener.Accept:   select { case <-ln.closeCh: return nil, ErrListenerClosed
+                                       case c, ok = <-ln.group.Accept(): if !ok { return nil, Err... }; return c, nil }
+   member's proxy accept loop (startCommonTCPListenersHandler): c, err := l.Accept(); err -> return; go handle(c)
+   TCPGroupListener.Close:    close(ln.closeCh); group.CloseListener(ln): remove; if it was the last:
+                              close(acceptCh); tcpLn.Close()
+   The channel is unbuffered: the worker's send and one member's receive are one rendezvous; the worker is a
+   single goroutine, so at most one connection is pending in the hand-off at any time ([gs_pending]). *)
+
+Inductive greq :=
+| GConn                     (* a user connection reaching the group's listening socket; id = thread id *)
+| GLoop (m : nat)           (* the accept loop of member m's proxy *)
+| GCloser (m : nat).        (* TCPGroupListener.Close of member m *)
+
+Inductive gpc :=
+| GArrive | GSending | GConnEnd            (* the worker's handling of one connection *)
+| GLRun | GLGot (u : nat) | GLEnd          (* a member's loop: in Accept / has received u, about to return it / returned an error *)
+| GC1 | GC2 | GCEnd.
+
+Inductive gfate :=
+| GNoConn
+| GNew                      (* not yet accepted by the worker *)
+| GPending                  (* accepted; the worker stands in the hand-off send *)
+| GTaken (m : nat)          (* received by member m's Accept, not yet returned *)
+| GHandled (m : nat)        (* returned by member m's Accept: its handler runs (direct-path theorems apply) *)
+| GRefused                  (* the listening socket was already closed *)
+| GClosedOnFail             (* hand-off failed, the worker closed it *)
+| GLost.                    (* taken out of the hand-off, returned to nobody, not closed *)
+
+Record gcfg := {
+  gc_reqs : list greq;
+  gc_members : nat;                 (* members 0 .. gc_members-1 have joined *)
+  gc_pick : nat -> bool;            (* oracle: how the k-th ambiguous select (closeCh and hand-off both ready) resolves:
+                                       true = the hand-off case *)
+  gc_close_on_fail : bool;          (* the worker closes a connection whose hand-off failed (repaired) *)
+  gc_recheck_drops : bool           (* Accept re-checks closeCh after it has received a connection and then
+                                       returns an error without the connection (today: it does not) *)
+}.
+
+Record gst := {
+  gs_sock_open : bool;              (* tcpLn accepts *)
+  gs_chclosed : bool;               (* close(acceptCh) done *)
+  gs_pending : option nat;
+  gs_closech : nat -> bool;         (* member m: close(closeCh) done *)
+  gs_left : nat -> bool;            (* member m removed from tg.lns *)
+  gs_tick : nat;                    (* number of ambiguous selects resolved so far *)
+  gs_fate : nat -> gfate;
+  gs_thr : nat -> option gpc
+}.
+
+Definition g_init (cfg : gcfg) : gst :=
+  {| gs_sock_open := true; gs_chclosed := false; gs_pending := None;
+     gs_closech := fun _ => false;
+     gs_left := fun m => negb (Nat.ltb m (gc_members cfg));
+     gs_tick := O;
+     gs_fate := fun u => match nth_error (gc_reqs cfg) u with Some GConn => GNew | _ => GNoConn end;
+     gs_thr := fun t => match nth_error (gc_reqs cfg) t with
+                        | Some GConn => Some GArrive | Some (GLoop _) => Some GLRun | Some (GCloser _) => Some GC1
+                        | None => None end |}.
+
+Definition g_upd_thr s t v := {| gs_sock_open := gs_sock_open s; gs_chclosed := gs_chclosed s; gs_pending := gs_pending s;
+  gs_closech := gs_closech s; gs_left := gs_left s; gs_tick := gs_tick s; gs_fate := gs_fate s; gs_thr := upd (gs_thr s) t v |}.
+Definition g_upd_fate s u f := {| gs_sock_open := gs_sock_open s; gs_chclosed := gs_chclosed s; gs_pending := gs_pending s;
+  gs_closech := gs_closech s; gs_left := gs_left s; gs_tick := gs_tick s; gs_fate := upd (gs_fate s) u f; gs_thr := gs_thr s |}.
+Definition g_set_pending s p := {| gs_sock_open := gs_sock_open s; gs_chclosed := gs_chclosed s; gs_pending := p;
+  gs_closech := gs_closech s; gs_left := gs_left s; gs_tick := gs_tick s; gs_fate := gs_fate s; gs_thr := gs_thr s |}.
+Definition g_tick s := {| gs_sock_open := gs_sock_open s; gs_chclosed := gs_chclosed s; gs_pending := gs_pending s;
+  gs_closech := gs_closech s; gs_left := gs_left s; gs_tick := S (gs_tick s); gs_fate := gs_fate s; gs_thr := gs_thr s |}.
+
+(* all members 0..n-1 have left *)
+Fixpoint g_all_left (left : nat -> bool) (n : nat) : bool :=
+  match n with O => true | S k => left k && g_all_left left k end.
+
+(* member m's Accept has received u *)
+Definition g_receive (cfg : gcfg) (s : gst) (t m u : nat) : gst :=
+  let s1 := g_set_pending s None in
+  if gc_recheck_drops cfg then g_upd_thr (g_upd_fate s1 u (GTaken m)) t (Some (GLGot u))
+  else g_upd_fate s1 u (GHandled m).            (* return c, nil; the loop starts the handler and calls Accept again *)
+
+Definition g_step (cfg : gcfg) (s : gst) (t : nat) : gst :=
+  match gs_thr s t, nth_error (gc_reqs cfg) t with
+  | Some GArrive, _ =>                     (* tcpLn.Accept(): one connection at a time *)
+      if negb (gs_sock_open s) then g_upd_thr (g_upd_fate s t GRefused) t (Some GConnEnd)
+      else match gs_pending s with
+           | Some _ => s                                  (* the worker is still in the previous hand-off *)
+           | None => g_upd_thr (g_upd_fate (g_set_pending s (Some t)) t GPending) t (Some GSending)
+           end
+  | Some GSending, _ =>                    (* the send: completed by a receiver (then nothing is pending any more), or the channel is closed *)
+      match gs_pending s with
+      | Some u =>
+          if Nat.eqb u t then
+            if gs_chclosed s then
+              g_upd_thr (g_upd_fate (g_set_pending s None) t (if gc_close_on_fail cfg then GClosedOnFail else GLost)) t (Some GConnEnd)
+            else s                                        (* blocked: no member has received yet *)
+          else g_upd_thr s t (Some GConnEnd)
+      | None => g_upd_thr s t (Some GConnEnd)
+      end
+  | Some GLRun, Some (GLoop m) =>          (* TCPGroupListener.Accept of member m *)
+      let closed := gs_closech s m in
+      match gs_pending s with
+      | Some u =>
+          if gs_chclosed s then
+            (* receive on the closed channel yields !ok; closeCh is closed too: either way an error *)
+            g_upd_thr s t (Some GLEnd)
+          else if closed then
+            (if gc_pick cfg (gs_tick s) then g_receive cfg (g_tick s) t m u else g_upd_thr (g_tick s) t (Some GLEnd))
+          else g_receive cfg s t m u
+      | None =>
+          if closed || gs_chclosed s then g_upd_thr s t (Some GLEnd) else s
+      end
+  | Some (GLGot u), Some (GLoop m) =>      (* only with the re-check: closeCh closed meanwhile -> error, c dropped *)
+      if gs_closech s m then g_upd_thr (g_upd_fate s u GLost) t (Some GLEnd)
+      else g_upd_thr (g_upd_fate s u (GHandled m)) t (Some GLRun)
+  | Some GC1, Some (GCloser m) =>          (* close(ln.closeCh) *)
+      g_upd_thr {| gs_sock_open := gs_sock_open s; gs_chclosed := gs_chclosed s; gs_pending := gs_pending s;
+                   gs_closech := upd (gs_closech s) m true; gs_left := gs_left s; gs_tick := gs_tick s;
+                   gs_fate := gs_fate s; gs_thr := gs_thr s |} t (Some GC2)
+  | Some GC2, Some (GCloser m) =>          (* CloseListener under the group lock *)
+      let left := upd (gs_left s) m true in
+      let last := g_all_left left (gc_members cfg) in
+      g_upd_thr {| gs_sock_open := if last then false else gs_sock_open s;
+                   gs_chclosed := if last then true else gs_chclosed s;
+                   gs_pending := gs_pending s; gs_closech := gs_closech s; gs_left := left; gs_tick := gs_tick s;
+                   gs_fate := gs_fate s; gs_thr := gs_thr s |} t (Some GCEnd)
+  | _, _ => s
+  end.
+
+Definition g_run (cfg : gcfg) (sched : list nat) (s : gst) : gst := fold_left (g_step cfg) sched s.
+Definition g_exec (cfg : gcfg) (sched : list nat) : gst := g_run cfg sched (g_init cfg).
